@@ -8,6 +8,8 @@ use serde_json::{json, Value};
 
 use super::c01;
 use super::hard;
+use super::history::{self, History};
+use packing::PackedState;
 use crate::common::*;
 use crate::libx::{self, build_packed, HardGeom, Params, ShapeSpec};
 use crate::oracle::geom::{self, OShape};
@@ -160,8 +162,16 @@ fn check_state_generic<S: HardGeom>(shape: S, c: &StateCase, find_contact: bool,
         basis[0].set_value(hi * (1. + 1e-7));
         p.len = basis[0].get_value();
     }
+    let case = StateCase { group: c.group.clone(), shape: c.shape.clone(), params: p };
+    judge_score(&state, &case, st);
+}
+
+/// the comparison proper: the score of a state the oracle finds to be a packing against
+/// copies x true shape area / |A x B|, everything read from the state in hand
+pub fn judge_score<S: HardGeom>(state: &PackedState<S>, c: &StateCase, st: &mut Stats) {
+    let p = c.params;
     st.eval();
-    let view = hard::view(&state);
+    let view = hard::view(state);
     let contact = hard::deepest_contact(&view.shape, &view.placements, &view.lattice);
     if !(contact.depth < c01::TOL) {
         st.count("states_skipped_not_a_packing");
@@ -175,7 +185,7 @@ fn check_state_generic<S: HardGeom>(shape: S, c: &StateCase, find_contact: bool,
         }
     };
     let want = view.copies as f64 * view.shape.area() / view.lattice.area();
-    let case = StateCase { group: c.group.clone(), shape: c.shape.clone(), params: p };
+    let case = c.clone();
     let oblique = (view.lattice.theta - PI / 2.).abs() > 1e-9;
     let lens = matches!(&view.shape, OShape::Discs(d) if d.len() > 1);
     if oblique || lens {
@@ -253,8 +263,53 @@ fn check_cell_area<R: Rng>(rng: &mut R, st: &mut Stats) {
     }
 }
 
+/// one hard state edited again and again (parameters several at a time, the shape replaced,
+/// cloned, read back), its score compared with the oracle after every edit
+pub fn check_history(h: &History, st: &mut Stats) {
+    let before = st.violations.len();
+    fn go<S: HardGeom>(h: &History, shapes: Vec<S>, st: &mut Stats) {
+        let state = match build_packed(shapes[0].clone(), &h.group, &h.start) {
+            Ok(s) => s,
+            Err(e) => {
+                st.inconclusive.push(e);
+                return;
+            }
+        };
+        history::drive(h, state, &shapes, st, |s, _step, six, p, st| {
+            let c = StateCase { group: h.group.clone(), shape: h.shapes[six].clone(), params: *p };
+            judge_score(s, &c, st);
+        });
+    }
+    if h.shapes.iter().all(|s| s.is_line()) {
+        go(h, h.shapes.iter().filter_map(|s| s.line()).collect::<Vec<_>>(), st);
+    } else {
+        let v: Vec<_> = h.shapes.iter().filter_map(|s| s.mol()).collect();
+        if v.len() == h.shapes.len() {
+            go(h, v, st);
+        }
+    }
+    history::rewrap(st, before, "c02.history", h);
+}
+
+pub fn gen_history<R: Rng>(rng: &mut R) -> History {
+    let group = groups::NAMES[rng.gen_range(0, 7)];
+    let line = rng.gen_bool(0.5);
+    let n = rng.gen_range(1, 4);
+    let shapes: Vec<ShapeSpec> = (0..n)
+        .map(|_| loop {
+            let s = libx::gen::hard_shape(rng);
+            if s.is_line() == line {
+                break s;
+            }
+        })
+        .collect();
+    // dilute: pooled lengths 2.5..40 times the copy count
+    let copies = groups::group(group).unwrap().ops.len() as f64;
+    history::gen_history(rng, group, shapes, false, 2. * copies)
+}
+
 pub fn run(ctx: &Ctx) {
-    ctx.set_rule("direct: Shape::area() of polygon(3..64), from_radial with random radii 0.2-2 (star shapes included), circle, trimers over radius 0.1-1.5 x angle 10-180 x distance 0.1-2.5, vs shoelace / exact union-of-discs area (Green's theorem over exposed arcs; self-tested against a 1200x1200 grid count at start-up); state level: random states of all 7 groups, as generated and shrunk to just outside first contact, restricted to oracle-valid packings: score vs copies x area / |A x B| (1e-9 relative) and score <= 1; non-trivial = polygons, trimers with at least one lens, states with oblique cells or multi-disc shapes; distinct by shape/parameter hash");
+    ctx.set_rule("direct: Shape::area() of polygon(3..64), from_radial with random radii 0.2-2 (star shapes included), circle, trimers over radius 0.1-1.5 x angle 10-180 x distance 0.1-2.5, vs shoelace / exact union-of-discs area (Green's theorem over exposed arcs; self-tested against a 1200x1200 grid count at start-up); state level: random states of all 7 groups, as generated and shrunk to just outside first contact, restricted to oracle-valid packings: score vs copies x area / |A x B| (1e-9 relative) and score <= 1; the same comparison after every edit of state objects that live through histories of 3-13 edits (several parameters at once - set, rescaled by powers of two, negated, nudged, exchanged, reset -, the shape replaced by another, the cell replaced, clone(), JSON round trip); non-trivial = polygons, trimers with at least one lens, states with oblique cells or multi-disc shapes; distinct by shape/parameter hash");
     if !selftest_union_area(ctx) {
         return;
     }
@@ -275,6 +330,9 @@ pub fn run(ctx: &Ctx) {
             let c = StateCase { group, shape, params: p };
             check_state(&c, i % 2 == 0, st);
         }
+        for _ in 0..ns / 8 {
+            check_history(&gen_history(rng), st);
+        }
     });
     ctx.set_min_nontrivial(5_000);
     let _ = libx::BIG_LEN;
@@ -294,6 +352,11 @@ pub fn replay(ctx: &Ctx, kind: &str, case: &Value) {
                 if !(rel_diff(cell.area(), want) <= REL) {
                     st.violation(Violation { kind: "c02.cell".into(), signature: "Cell2::area:wrong".into(), case: case.clone(), detail: json!({"library": cell.area(), "a*b*sin(angle)": want}) });
                 }
+            }
+        }
+        "c02.history" => {
+            if let Ok(h) = serde_json::from_value::<History>(case.clone()) {
+                check_history(&h, &mut st)
             }
         }
         _ => {
